@@ -144,6 +144,10 @@ pub struct Gen<'t, 'd> {
     pub n_wild_except: usize,
     /// the append just generated is to be emitted twice
     pub dup_append: bool,
+    /// (sorted let-table, second let-table reading it): the main pipeline reads the first, takes a
+    /// slice and joins the second, so that one sorted relation has two live readers
+    pub main_scaffold: Option<(usize, usize)>,
+    pub force_right_let: Option<usize>,
     cur_src_let: bool,
     after_append: bool,
     in_sub: bool,
@@ -241,6 +245,8 @@ impl<'t, 'd> Gen<'t, 'd> {
             wild_prog: false,
             n_wild_except: 0,
             dup_append: false,
+            main_scaffold: None,
+            force_right_let: None,
             cur_src_let: false,
             after_append: false,
             in_sub: false,
@@ -1382,14 +1388,19 @@ impl<'t, 'd> Gen<'t, 'd> {
     /// a source to join/append with, and its frame
     fn gen_right_source(&mut self, left: &Frame, depth: usize) -> (Source, Frame) {
         let left_rels: Vec<String> = left.cols.iter().filter_map(|c| c.rel.clone()).collect();
+        let forced = self.force_right_let.is_some();
         let kind = self.t.weighted(&[
             if self.wild_prog { 6 } else { 0 },
-            if self.lets.is_empty() { 0 } else { 3 },
+            if self.lets.is_empty() { 0 } else if self.haz("sorted_let") { 10 } else { 3 },
             4,
         ]);
+        let kind = if forced { 1 } else { kind };
         match kind {
             1 => {
-                let li = self.t.choose(self.lets.len());
+                let mut li = self.t.choose(self.lets.len());
+                if let Some(x) = self.force_right_let.take() {
+                    li = x;
+                }
                 let (mut f, _) = self.let_frames[li].clone();
                 let lname = self.lets[li].name.clone();
                 let alias = if left_rels.contains(&lname) || self.t.chance(1, 3) {
@@ -2192,9 +2203,16 @@ impl<'t, 'd> Gen<'t, 'd> {
 
     pub fn gen_pipeline(&mut self, nsteps: usize, depth: usize) -> (Pipeline, Frame, Ord) {
         // source
-        let use_let = !self.lets.is_empty() && self.t.chance(1, 3);
+        // (under the sorted_let hazard let-tables are read more often, so that one sorted
+        // let-table gets several readers)
+        let use_let = !self.lets.is_empty() && (self.t.chance(1, 3) || (self.haz("sorted_let") && self.t.chance(1, 2)));
+        let scaffold = if self.in_sub { None } else { self.main_scaffold.take() };
+        let use_let = use_let || scaffold.is_some();
         let (source, mut frame, mut ord) = if use_let {
-            let li = self.t.choose(self.lets.len());
+            let mut li = self.t.choose(self.lets.len());
+            if let Some((l, _)) = scaffold {
+                li = l;
+            }
             let (mut f, o) = self.let_frames[li].clone();
             let lname = self.lets[li].name.clone();
             let alias = if self.t.chance(1, 5) {
@@ -2283,6 +2301,18 @@ impl<'t, 'd> Gen<'t, 'd> {
         let saved_t = (self.had_take, self.ntakes);
         self.had_take = false;
         self.ntakes = 0;
+        if let Some((_, r)) = scaffold {
+            // first reader: a slice of the sorted let-table; second reader: the joined let-table
+            if ord.ordered && ord.total {
+                steps.push(self.gen_take());
+                self.had_take = true;
+                self.ntakes += 1;
+            }
+            self.force_right_let = Some(r);
+            let js = self.gen_join(&mut frame, &mut ord, 0);
+            self.force_right_let = None;
+            steps.extend(js);
+        }
         let more = self.gen_steps(&mut frame, &mut ord, nsteps, depth);
         if self.after_append && !more.is_empty() {
             // anything downstream of a pipeline containing an append may prune its columns
@@ -2325,6 +2355,32 @@ impl<'t, 'd> Gen<'t, 'd> {
         self.wild_prog = self.cfg.allow_wild && (self.t.chance(1, 4) || self.haz_wild_join());
         self.gen_funcs();
         self.gen_lets();
+        if self.haz("sorted_let") && self.t.chance(1, 2) {
+            // one sorted let-table with two live readers (see `main_scaffold`)
+            let cands: Vec<usize> = (0..self.lets.len())
+                .filter(|i| {
+                    let (f, o) = &self.let_frames[*i];
+                    o.ordered && o.total && f.wild_rels.is_empty() && f.cols.iter().all(|c| c.name.is_some())
+                })
+                .collect();
+            if !cands.is_empty() {
+                let li = cands[self.t.choose(cands.len())];
+                let take = self.gen_take();
+                let (f, o) = self.let_frames[li].clone();
+                let name = format!("lr{}", self.lets.len());
+                self.lets.push(LetDef {
+                    name,
+                    pipe: Pipeline {
+                        source: Source { kind: SrcKind::Let(li), alias: None },
+                        steps: vec![take],
+                    },
+                    into: false,
+                    module: None,
+                });
+                self.let_frames.push((f, o));
+                self.main_scaffold = Some((li, self.lets.len() - 1));
+            }
+        }
         let ns = self.t.choose(self.cfg.max_steps + 1);
         let (main, frame, _ord) = self.gen_pipeline(ns, 1);
         let surface = Surface {
